@@ -14,7 +14,8 @@ RULE = ('Hypothesis: lists of 1..10 values: ints (|x| <= 10^6), floats '
         'all-equal floats (the rounding case).  Distinct = case hash.')
 ASSUMPTIONS = [
     'count, min, max exact; total exact for ints and within tolerance for '
-    'floats; mean / variance / variance-n within 1e-9*(1+mean square) '
+    'floats; mean within 1e-9*(1+mean square), variance / variance-n within '
+    '64 ulp of (1+mean square) (the rounding the one-pass formula can incur) '
     'absolute (the documented one-pass formula cancels); each standard '
     'deviation must equal sqrt of the reported variance (relative 1e-9)',
     'even-count median: any value between the two middle values (numbers) '
@@ -90,6 +91,10 @@ def check(case):
     fl = [float(x) for x in xs]
     msq = sum(x * x for x in fl) / c
     tol = 1e-9 * (1 + msq)
+    # the variances are computed as (sum of squares)/n - mean**2: with at
+    # most 11 roundings of relative size 2**-53 on terms of size <= msq the
+    # result is within a few ulp of msq; 64 ulp leaves a 5x margin
+    vtol = 64 * 2.0 ** -52 * (1 + msq)
     tot = math.fsum(fl)
     if all(isinstance(x, int) for x in xs):
         if d['total'] != sum(xs):
@@ -104,13 +109,13 @@ def check(case):
         return 'mean', '%r: mean %r expected %r' % (vals, d['mean'], mean)
     varn = math.fsum((x - mean) ** 2 for x in fl) / c
     if not isinstance(d['variance-n'], (int, float)) or \
-            abs(d['variance-n'] - varn) > tol:
+            abs(d['variance-n'] - varn) > vtol:
         return 'variance-n', '%r: variance-n %r expected %r' % (
             vals, d['variance-n'], varn)
     if c > 1:
         var = math.fsum((x - mean) ** 2 for x in fl) / (c - 1)
         if not isinstance(d['variance'], (int, float)) or \
-                abs(d['variance'] - var) > tol * c / (c - 1):
+                abs(d['variance'] - var) > vtol * c / (c - 1):
             return 'variance', '%r: variance %r expected %r' % (
                 vals, d['variance'], var)
     else:
@@ -166,9 +171,18 @@ def strategy():
             [None] if t[2] else [])))
     mix = st.lists(st.one_of(small, floats, none), min_size=1,
                    max_size=10).map(lambda v: dict(kind='mixnum', vals=v))
+    # large magnitude, small spread (the variance is tiny next to mean**2)
+    near = st.tuples(
+        st.sampled_from([10 ** 6, 10 ** 5, 250.0, 10.0, 12345.678, -4000.5,
+                         65536, 10 ** 4]),
+        st.lists(st.one_of(st.integers(0, 3), st.sampled_from(
+            [0.0002, 0.005, 0.0025, 0.5, 0.125])), min_size=2, max_size=6),
+        st.booleans()).map(lambda t: dict(
+            kind='mixnum', vals=[t[0] + x for x in t[1]] + (
+                [None] if t[2] else [])))
     base = st.one_of(lst(ints, 'int'), lst(small, 'int'), lst(floats,
                                                               'float'),
-                     mix, lst(strs, 'str'), eqf)
+                     mix, lst(strs, 'str'), eqf, near)
     return st.tuples(base, st.booleans()).map(
         lambda t: dict(t[0], mapping=t[1]))
 
